@@ -442,7 +442,52 @@ def r18_7(ctx):
     ctx.run_rule("R18.7", "duplicating a buffer copies its bytes", body, floor=1)
 
 
+def r18_8(ctx):
+    """Every pointer handed to the C caller is null, a pointer the caller passed in, or comes
+    straight from an ownership-transferring producer (so that the caller's release is valid)."""
+    F = ctx.facts
+
+    def body(r):
+        fns = [f for f in F.fn_list if not f.derived and (f.abi.startswith("C") or f.key in ("ffi_helpers::string_to_c_char", "http::ffi::http_headers_to_header_map"))]
+        n = 0
+        for f in fns:
+            out_ty = F.types[f.j["output"]] if "output" in f.j else None
+            if out_ty is None or out_ty.get("k") != "ptr":
+                continue
+            r.analysed(f)
+            bad = set()
+            for p in Sym(f, copies=False).paths():
+                if p.end[0] != "ret":
+                    continue
+                v = p.end[1]
+                parts = [v]
+                ok = True
+                for x in parts:
+                    if x[0] == "call" and x[1] in ("std::ptr::null", "std::ptr::null_mut"):
+                        continue
+                    if x[0] == "call" and x[1] in ("std::boxed::Box::into_raw", "std::ffi::CString::into_raw"):
+                        continue
+                    if x[0] == "call" and x[1] in ("ffi_helpers::string_to_c_char", "http::ffi::http_headers_to_header_map"):
+                        continue
+                    if x[0] == "param":
+                        continue
+                    if x[0] in ("local", "havoc", "phi"):
+                        # a named pointer variable: every value it was given on this path
+                        sets = [e[3] for e in p.events if e[0] == "set" and e[1] == x[1]]
+                        if sets and all(s_[0] == "call" and s_[1] in ("std::ptr::null", "std::boxed::Box::into_raw") or (s_[0] == "cast" and s_[1][0] == "call" and s_[1][1] in ("std::ptr::null", "std::boxed::Box::into_raw")) or s_[0] == "param" for s_ in sets):
+                            continue
+                    if x[0] == "cast" and x[1][0] == "call" and x[1][1] in ("std::boxed::Box::into_raw", "std::ptr::null"):
+                        continue
+                    bad.add(show(x, f)[:100])
+                n += 1
+            r.ob("returned-pointer:%s" % f.name, not bad, f.site,
+                 "returns null, a caller-provided pointer or a freshly produced owner" if not bad else "returns %s: the caller releases every returned pointer the same way, this one was not produced by into_raw" % sorted(bad))
+        r.ob("returned-pointer:paths", n >= 20, "", "%d return paths of pointer-returning C-facing functions" % n)
+    ctx.run_rule("R18.8", "provenance of every pointer returned to C", body, floor=12)
+
+
 def run(ctx):
+    r18_8(ctx)
     r18_1(ctx)
     r18_2(ctx)
     r18_3(ctx)
